@@ -229,7 +229,7 @@ func (fe *FE) doPanic(st *State, what, kind, label string) {
 		d := st.defers[i]
 		st.defers = st.defers[:i]
 		if d.native == "" && d.fnVal.Fn != nil {
-			if con := fe.V.contractFor(d.fnVal.Fn); con != nil && con.Recovers {
+			if con := fe.V.contractFor(d.fnVal.Fn); con != nil && con.Recoverer {
 				recovered = true
 			}
 		}
